@@ -137,3 +137,14 @@ package schema
 //@   in schema.(*Schema).ParseUniqueConstraints
 //@   min-sites 1
 //@   assert column-name: arg1 == field.DBName [C20]
+
+//@ # ---------- C03: a pointer to the epoch is a value, only a nil pointer is NULL ----------
+//@ ghost serializedValuePtr
+//@ event call reflect.ValueOf
+//@   in schema.(UnixSecondSerializer).Value
+//@   do serializedValuePtr = ref(result.ptr)
+//@ site unixtime-null-only-for-a-nil-pointer
+//@   match call reflect.(Value).IsZero
+//@   in schema.(UnixSecondSerializer).Value
+//@   min-sites 1
+//@   assert tests-the-pointer-itself: ref(arg0.ptr) == serializedValuePtr [C03]
